@@ -32,13 +32,27 @@ def _tol_value(after_root, a, fresh, ra, rb, side=None):
 
 
 def near_discontinuity(tree, a):
-    """sgn is discontinuous at 0: when the argument of some sgn node is zero up to rounding (|value| <= 1e-9 x the largest
-    magnitude inside that argument), a one-ulp difference in a folded constant or in a float power legitimately flips
-    the value of the whole expression. Such points are skipped (and counted) whenever rounding is in play."""
+    """Points where a one-ulp difference in a folded constant or in a float power legitimately changes the value of the whole
+    expression by an arbitrary amount, so that no derived tolerance applies: the argument of some sgn node (discontinuous at
+    0), some divisor, or the base of a power with a negative or non-integer exponent (poles / infinite slope at 0) is zero UP TO
+    ROUNDING - |value| <= 1e-9 x the largest magnitude inside that argument (e.g. 0.3 * 1.5x + 15 * 1.5 * 0.1 at x = -5 is
+    -2.25 + 2.25 plus rounding). Such points are skipped (and counted) whenever rounding is in play."""
     for n in A.preorder(tree):
-        if A.kind(n) != "SgnExpression":
+        k = A.kind(n)
+        if k == "SgnExpression":
+            child = n.left if n.left is not None else n.right
+        elif k == "DivideExpression":
+            child = n.right
+        elif k == "PowerExpression":
+            child = n.left
+            try:
+                e = X.try_eval(n.right, a) if n.right is not None else None
+            except (X.NonFinite, X.Malformed):
+                return True
+            if e is not None and not e.is_eq and e.value.denominator == 1 and e.value >= 0:
+                continue
+        else:
             continue
-        child = n.left if n.left is not None else n.right
         if child is None:
             continue
         try:
